@@ -92,20 +92,29 @@ class Chart:
       elif s == signals.ENTRY_SIGNAL:
         self.log.append(("en", i))
       return None
+    hook = getattr(self, "action_hook", None)
     if s == signals.ENTRY_SIGNAL:
       if not (self.hx & HX_ENTRY):
         self.log.append(("en", i))
+        if hook:
+          hook("en", i, chart)
         return rs.HANDLED
     elif s == signals.EXIT_SIGNAL:
       if not (self.hx & HX_EXIT):
         self.log.append(("ex", i))
+        if hook:
+          hook("ex", i, chart)
         return rs.HANDLED
     elif s == signals.INIT_SIGNAL:
       if self.init[i] >= 0:
         self.log.append(("in", i))
+        if hook:
+          hook("in", i, chart)
         return chart.trans(self.hs[self.init[i]])
       if not (self.hx & HX_INIT):
         self.log.append(("in", i))
+        if hook:
+          hook("in", i, chart)
         return rs.HANDLED
     elif s == self.SIG:
       self.log.append(("of", i))
